@@ -916,6 +916,33 @@ def env_runs(ctx):
 
 
 # ---------------------------------------------------------------- the check
+def repeat_one(seed):
+    """the SAME operand objects contracted twice (and three times): every call must return the same array"""
+    import numpy as np
+    import symmray as sr
+    import random as _rnd
+    r = _rnd.Random(seed)
+    sym = r.choice(['Z2', 'U1'])
+    ra, rb = r.choice([2, 3]), r.choice([1, 1, 2])
+    da = [r.randrange(2) for _ in range(ra)]
+    db = [1 - da[-1]] + [r.randrange(2) for _ in range(rb - 1)]
+    ca, cb = r.choice([0, 1]), r.choice([0, 1, 1])
+    ferm = r.random() < 0.8
+    kw = {'fermionic': True} if ferm else {}
+    a = sr.utils.get_rand(sym, (4,) * ra, duals=da, charge=ca, seed=seed, **({'oddpos': 'a', **kw} if ferm and ca else kw))
+    b = sr.utils.get_rand(sym, (4,) * rb, duals=db, charge=cb, seed=seed + 1, **({'oddpos': 'b', **kw} if ferm and cb else kw))
+    outs = []
+    for _ in range(3):
+        c = sr.tensordot(a, b, axes=((ra - 1,), (0,)))
+        outs.append(np.asarray(c.to_dense() if hasattr(c, 'to_dense') else c))
+    same = all(o.shape == outs[0].shape and np.array_equal(o, outs[0]) for o in outs[1:])
+    if same:
+        return None
+    return {'oracle': 'repeat', 'seed': seed, 'symmetry': sym, 'fermionic': ferm, 'duals_a': da, 'duals_b': db, 'charge_a': ca,
+            'charge_b': cb, 'first': outs[0].tolist().__repr__()[:600], 'second': outs[1].tolist().__repr__()[:600],
+            'third': outs[2].tolist().__repr__()[:600]}
+
+
 def f9_known():
     for f in common.load_known_findings().get('findings', []):
         s = json.dumps(f)
@@ -1090,6 +1117,25 @@ def run(ctx):
             ac.set_default_tensordot_mode(old_default)
         except Exception:
             pass
+    # ---- the same operand objects contracted again and again (own stream; seeded C15_A5)
+    try:
+        import random as _random2
+        rrng = _random2.Random(7919 * ctx.seed + 5)
+        nrep, nskip = (400 if ctx.thorough else 80), 0
+        for _ in range(nrep):
+            sd = rrng.randrange(10 ** 6)
+            try:
+                rr = repeat_one(sd)
+            except Exception:
+                nskip += 1
+                continue
+            ctx.count()
+            if rr:
+                found.append(('contracting the same two arrays a second time returns a different result (call history observable)', rr))
+                break
+        ctx.extra['repeat_same_objects'] = {'cases': nrep - nskip, 'rejected_by_library': nskip}
+    except Exception as e:
+        ctx.note('repeat stream: %s: %s' % (type(e).__name__, e))
     # ---- two threads inside the fuse-info computation at once (one parked mid-way, cache disabled)
     try:
         ctx.count(3)
@@ -1199,6 +1245,12 @@ def replay(path):
         print('cache disabled :', ref[i, j][:1500])
         print('this history   :', got[-1][:1500])
         return 0 if got[-1] == ref[i, j] else 1
+    if o == 'repeat':
+        rr = repeat_one(r['seed'])
+        print('seed', r['seed'], '->', 'results differ between identical calls' if rr else 'identical results')
+        if rr:
+            print('first :', rr['first']); print('second:', rr['second'])
+        return 1 if rr else 0
     if o == 'forced_schedule':
         f9 = forced_f9(ac)
         print(json.dumps(f9, indent=1))
